@@ -437,9 +437,10 @@ static jv *obs_key(const char *key, jv *call, long r, jv *extra)
     return key[1] == 'w' ? cw : key[1] == 'x' ? cx : pp;
   }
   if (!strcmp(key, "cnb")) return j_mkint(c->exec_fds_nonblock);
-  if (!strcmp(key, "fchild")) { /* what the forked child saw in fork mode: [start's return value, pid(), wait(0), number of descriptors above 2] */
+  if (!strcmp(key, "fchild")) { /* what the forked child saw in fork mode: [start's return value, pid(), wait(0), number of descriptors above 2, number of blocked signals, result of a second start] */
     jv *a = j_mkarr(); j_push(a, j_mkint(c->forkmode_child ? c->fork_ret : -999)); j_push(a, j_mkint(c->stdin_read)); j_push(a, j_mkint(c->stdin_eof));
-    j_push(a, j_mkint(c->forkmode_child ? c->stdin_bad : -999)); return a;
+    j_push(a, j_mkint(c->forkmode_child ? c->stdin_bad : -999));
+    j_push(a, j_mkint(c->forkmode_child ? c->fk_nblocked : -999)); j_push(a, j_mkint(c->forkmode_child ? c->fk_start2 : -999)); return a;
   }
   if (!strcmp(key, "cexec")) return j_mkint(c->execd);
   if (!strcmp(key, "cmask")) return siglist(c->mask, 64);
@@ -960,10 +961,16 @@ static void fork_child_epilogue(int h, long r)
   int extra = 0;  /* descriptors above 2 the forked child holds when start returns in it: only the exit handle may be there */
   for (int i = 3; i < SK_MAXFD; i++) if (me->fd[i].ofd >= 0) extra++;
   me->stdin_bad = extra;
+  me->fk_nblocked = 0; for (int sg = 1; sg <= 64; sg++) if (me->mask & (1ULL << (sg - 1))) me->fk_nblocked++;
+  me->fk_start2 = -999;
   if (r == 0 && h > 0 && h < MAXH && H[h]) {
     K->in_api = 1;
     int q = reproc_pid(H[h]);
     int w = reproc_wait(H[h], 0);
+    /* the handle counts as started in the child too: a second start is rejected (nothing is created, nobody is forked) */
+    const char *argv2[] = { "/bin/c", NULL };
+    reproc_options none = { 0 };
+    me->fk_start2 = reproc_start(H[h], argv2, none);
     H[h] = reproc_destroy(H[h]);
     K->in_api = 0;
     me->stdin_read = q; me->stdin_eof = w; /* reuse fields: results of pid()/wait() in the child */
